@@ -46,8 +46,8 @@ CHECKS = {
 }
 
 KINDS = ('thread', 'process', 'remote')
-STEP_BOUND = 12.0      # seconds one real call may take before it is declared hung
-SETTLE_BOUND = 3.0
+STEP_BOUND = 6.0       # seconds a history may take (plus 0.5 s per call) before the current call is declared hung
+SETTLE_BOUND = 2.0
 
 # --------------------------------------------------------------------------- real executions
 
@@ -65,13 +65,21 @@ def _os_alive_pid(pid):
         return False
 
 
-def _thread_alive(tid=None, name=None):
+def _proc_start(pid):
+    """Start time of a process (pids are re-used quickly here: pid_max is small), None if gone."""
+    try:
+        with open('/proc/%d/stat' % pid) as f:
+            return f.read().rsplit(')', 1)[1].split()[19]
+    except (OSError, IndexError):
+        return None
+
+
+def _find_thread(tid=None, name=None):
+    """The threading.Thread object of a live thread of this process (thread ids are re-used too)."""
     for t in threading.enumerate():
-        if tid is not None and t.native_id == tid:
-            return True
-        if name is not None and t.name == name:
-            return True
-    return False
+        if (tid is not None and t.native_id == tid) or (name is not None and t.name == name):
+            return t
+    return None
 
 
 def proj_arg(x):
@@ -117,6 +125,7 @@ class Replay:
         self.pids = []
         self.finished = False
         self.current = None       # step being executed (for hang reports)
+        self.hung = False
         self.off = False          # a settle wait timed out: the run has left the behaviour, stop steering it
 
     # -- helpers
@@ -154,8 +163,11 @@ class Replay:
                    userid=str(w.userid), endk='final', oldos='na', rraised=[])
         self.incs.append(inc)
         self.late = False
-        if self.kind != 'thread' and w.pid not in self.pids:
-            self.pids.append(w.pid)
+        self.front = _find_thread(name='%s (remote front)' % self.name) if self.kind == 'remote' else None
+        # ground truth about the child: its Thread object (thread kind) or (pid, start time)
+        self.child = _find_thread(tid=w.tid) if self.kind == 'thread' else (w.pid, _proc_start(w.pid))
+        if self.kind != 'thread':
+            self.pids.append(self.child)
         ep = w.results_endpoint
         orig, raw, big = ep.get, inc['raw'], self.mods['big']
 
@@ -180,17 +192,18 @@ class Replay:
         except (OSError, ValueError):
             return True
 
-    def child_os_alive(self, pid=None, tid=None):
-        w = self.w
+    def child_os_alive(self, child=None):
+        child = self.child if child is None else child
         if self.kind == 'thread':
-            return _thread_alive(tid=tid if tid is not None else w.tid)
-        return _os_alive_pid(pid if pid is not None else w.pid)
+            return child is not None and child.is_alive()
+        pid, start = child
+        return start is not None and _proc_start(pid) == start and _os_alive_pid(pid)
 
     def worker_os_dead(self):
         """Everything is_alive() looks at is gone (remote: backend process and frontend thread)."""
         if self.child_os_alive():
             return False
-        if self.kind == 'remote' and _thread_alive(name='%s (remote front)' % self.name):
+        if self.kind == 'remote' and self.front is not None and self.front.is_alive():
             return False
         return True
 
@@ -206,7 +219,17 @@ class Replay:
             time.sleep(0.0005)
         return True
 
-    def settle(self, hasdata, cstate):
+    def count_ready(self, n):
+        """At least n results can be read (exact for queue endpoints; a pipe endpoint only tells 'at least one')."""
+        ep = self.ep
+        try:
+            if hasattr(ep, 'qsize'):
+                return ep.qsize() >= n
+            return bool(ep.poll(0))
+        except (OSError, ValueError):
+            return True
+
+    def settle(self, hasdata, cstate, n=1):
         if self.job.get('mode') == 'eager':
             if cstate == 'stuck' and self.flags:
                 self.await_(lambda: os.path.exists(self.flags[-1] + '.started'), 'stuck')
@@ -216,7 +239,7 @@ class Replay:
         elif cstate == 'stuck' and self.flags:
             self.await_(lambda: os.path.exists(self.flags[-1] + '.started'), 'stuck')
         if hasdata == 'T':
-            self.await_(lambda: self.has_data() or self.worker_os_dead(), 'data')
+            self.await_(lambda: self.count_ready(n) or self.worker_os_dead(), 'data')
 
     # -- the API steps
     def item(self):
@@ -326,7 +349,7 @@ class Replay:
             open(self.flags[-1], 'w').close()
             return 'ok'
         if op in ('restart', 'restartP', 'restartT', 'restartTnf'):
-            old_id, old_pid, old_tid = tuple(w.id), w.pid, w.tid
+            old_id, old_child = tuple(w.id), self.child
             try:
                 if op == 'restart':
                     w.restart()
@@ -338,11 +361,11 @@ class Replay:
                     w.restart(0.2, False, timeout=0.2)
             except RuntimeError:
                 self.late = True
-                still = tuple(w.id) == old_id and w.is_alive() and self.child_os_alive(old_pid, old_tid)
+                still = tuple(w.id) == old_id and w.is_alive() and self.child_os_alive(old_child)
                 inc['rraised'].append({'still': 'T' if still else 'F'})
                 return 'raised:RuntimeError'
             inc['endk'] = 'restarted'
-            inc['oldos'] = 'alive' if self.child_os_alive(old_pid, old_tid) else 'dead'
+            inc['oldos'] = 'alive' if self.child_os_alive(old_child) else 'dead'
             self.begin_inc()
             return 'ok'
         raise MachineryError('unknown op ' + op)
@@ -368,9 +391,11 @@ class Replay:
             self.current = 'construct'
             self.construct()
             for n, st in enumerate(self.job['hist']):
+                if self.hung:
+                    return
                 op, hasdata, cstate = st[0], st[2], st[3]
                 self.current = 'settle before step %d %s' % (n, op)
-                self.settle(hasdata, cstate)
+                self.settle(hasdata, cstate, st[4] if len(st) > 4 else 1)
                 self.current = 'step %d %s' % (n, op)
                 try:
                     out = self.step(op)
@@ -382,6 +407,8 @@ class Replay:
                         self.incs[-1]['calls'].append({'k': 0, 'out': out, 'v': {'t': 'nil', 'a': [], 'kw': []},
                                                        'nread': 0, 'late': 'T' if self.late else 'F'})
                     self.notes.append('step %d %s raised %r' % (n, op, e))
+                if self.hung:
+                    return
                 self.outs.append(out)
             self.current = 'finish'
             self.finish_history()
@@ -396,26 +423,19 @@ class Replay:
                 open(f, 'w').close()
             except OSError:
                 pass
-        w = self.w
-        if w is not None:
-            try:
-                if self.kind != 'thread' and w.pid not in self.pids and w.pid != os.getpid():
-                    self.pids.append(w.pid)
-            except Exception:  # noqa
-                pass
-        for pid in self.pids:
-            if pid != os.getpid() and _os_alive_pid(pid):
+        for pid, start in self.pids:
+            if pid != os.getpid() and start is not None and _proc_start(pid) == start and _os_alive_pid(pid):
                 try:
                     os.kill(pid, signal.SIGKILL)
                 except OSError:
                     pass
 
-    def run(self):
+    def run(self, step_bound=STEP_BOUND):
         th = threading.Thread(target=self.body, name='replay-' + str(self.job['id']), daemon=True)
         th.start()
-        bound = STEP_BOUND + 1.5 * len(self.job['hist'])
+        bound = step_bound + 0.5 * len(self.job['hist'])
         th.join(bound)
-        hung = th.is_alive()
+        hung = self.hung = th.is_alive()
         if hung:
             self.notes.append('hang in %s' % self.current)
             self.outs.append('hang')
@@ -448,7 +468,24 @@ def load_mods():
             'WCE': WorkerClosedError, 'Pipe': Pipe, 'targets': targets, 'big': targets.big_value()}
 
 
+def parent_watchdog():
+    """A runner lives in its own session; if the check that started it disappears, the whole session goes."""
+    ppid = os.getppid()
+
+    def watch():
+        while True:
+            time.sleep(1.0)
+            if os.getppid() != ppid:
+                try:
+                    if os.getpgrp() == os.getpid():
+                        os.killpg(os.getpgrp(), signal.SIGKILL)
+                finally:
+                    os._exit(3)
+    threading.Thread(target=watch, name='parent-watchdog', daemon=True).start()
+
+
 def runner_main(jobfile, outfile):
+    parent_watchdog()
     with open(jobfile) as f:
         jobs = json.load(f)
     mods = load_mods()
@@ -462,9 +499,13 @@ def runner_main(jobfile, outfile):
             if not server.is_alive():
                 raise MachineryError('cannot start a local remote server: %r' % (server.error,))
             addr = server.addr
+        hangs = 0
         for j in jobs:
-            results.append(Replay(j, mods, addr, tmp).run())
-            if len(results) % 50 == 0:
+            # when the code under test hangs systematically, do not spend the whole budget waiting for it
+            res = Replay(j, mods, addr, tmp).run(STEP_BOUND if hangs < 3 else 1.5)
+            hangs = hangs + 1 if any(n.startswith('hang') for n in res['notes']) else 0
+            results.append(res)
+            if len(results) % 8 == 0:
                 with open(outfile + '.part', 'w') as f:
                     json.dump(results, f)
     finally:
@@ -500,6 +541,21 @@ def run_jobs(jobs, nproc, name, timeout, module='vf.drivers.persistent_api'):
                              stdout=subprocess.PIPE, stderr=subprocess.STDOUT, start_new_session=True)
         procs.append((p, of, len(ch)))
     out, t0 = [], time.time()
+    try:
+        return _collect(procs, timeout, t0, out)
+    finally:
+        for p, _of, _n in procs:                      # whatever happens: no runner (or child of one) is left behind
+            try:
+                os.killpg(p.pid, signal.SIGKILL)      # the runner's own session: strays of this runner only
+            except OSError:
+                pass
+            try:
+                p.wait(5)
+            except Exception:  # noqa
+                pass
+
+
+def _collect(procs, timeout, t0, out):
     for p, of, n in procs:
         try:
             so, _ = p.communicate(timeout=max(5, timeout - (time.time() - t0)))
@@ -507,15 +563,20 @@ def run_jobs(jobs, nproc, name, timeout, module='vf.drivers.persistent_api'):
             so = b'(runner timed out)'
         finally:
             try:
-                os.killpg(p.pid, signal.SIGKILL)      # the runner's own session: strays of this runner only
+                os.killpg(p.pid, signal.SIGKILL)
             except OSError:
                 pass
             p.wait()
         path = of if os.path.exists(of) else of + '.part'
         if not os.path.exists(path):
-            raise MachineryError('replay runner produced nothing: rc=%s\n%s' % (p.returncode, so.decode('utf-8', 'replace')[-3000:]))
-        with open(path) as f:
-            got = json.load(f)
+            if p.returncode not in (0, -9):
+                raise MachineryError('replay runner failed: rc=%s\n%s' % (p.returncode, so.decode('utf-8', 'replace')[-3000:]))
+            continue              # ran out of time before its first results: the caller sees the jobs as not run
+        try:
+            with open(path) as f:
+                got = json.load(f)
+        except ValueError:
+            continue              # killed while writing its partial results
         if len(got) < n and path == of:
             raise MachineryError('replay runner lost jobs')
         out += got
@@ -544,12 +605,13 @@ def model_check(ev, prop, tier):
     """The design: exhaustive TLC runs, wrong variants that must be rejected, witnesses that must be reached."""
     wit = {}
     if prop == 'C05':
-        big = dict(MaxSteps=6, MaxEnq=3) if tier == 'thorough' else {}
+        big = dict(MaxSteps=6, MaxEnq=2) if tier == 'thorough' else {}
         r = tlc.run('PersistentMC', cfg_text=_cfg('Persistent_mc.cfg', **big), coverage=(tier == 'thorough'), name='mc', timeout=3000)
         ev.add_tlc('exhaustive, every interleaving: 3 kinds x list/tuple x defaults of length 0,1,3 x default kwargs x 3 enqueue shapes, histories of enqueue/next_result/close/wait/call/is_alive', r)
         if r.error:
             raise MachineryError('Persistent.tla violates its own properties: %s\n%s' % (r.error, '\n'.join(r.trace[:80])))
-        r2 = tlc.run('PersistentMC', cfg_text=_cfg('Persistent_mc.cfg', Shapes='Sh_mc', DArgsSet='DA_mc', Settle='TRUE', MaxSteps=4 if tier == 'quick' else 6, MaxEnq=3),
+        r2 = tlc.run('PersistentMC', cfg_text=_cfg('Persistent_mc.cfg', Shapes='Sh_mc', DArgsSet='DA_mc', Settle='TRUE', MaxSteps=4 if tier == 'quick' else 5, MaxEnq=3,
+                                              DTypes='DT_list' if tier == 'quick' else 'DT_all'),
                      name='mc-settled', timeout=3000)
         ev.add_tlc('exhaustive, settled caller: 5 enqueue shapes (fewer/as many/more args, overriding/new kwargs, None result), longer histories', r2)
         if r2.error:
@@ -569,7 +631,7 @@ def model_check(ev, prop, tier):
             raise MachineryError('the pre-fix merge (slice assignment on tuple defaults) is not rejected by the model checker: %s' % rp.error)
         wit['prefix_tuple_merge_model'] = rp.error
     else:
-        big = dict(MaxSteps=7) if tier == 'thorough' else {}
+        big = dict(MaxSteps=7, MaxRestarts=3) if tier == 'thorough' else {}
         r = tlc.run('PersistentMC', cfg_text=_cfg('Persistent_c17.cfg', **big), coverage=(tier == 'thorough'), name='mc17', timeout=3000)
         ev.add_tlc('exhaustive, every interleaving: 3 kinds, histories with poison/stuck items, kill, terminate, close and up to 2 restarts (own / supplied pipe, with / without timeout and force)', r)
         if r.error:
@@ -631,9 +693,18 @@ def decorate(rng, kind, hist, jid, c17=False, dtype=None, mode='settle'):
             nxt = ops[n + 1] if n + 1 < len(ops) else ''
             a[0] = rng.choice(['@none', '@zero', '@empty'] + (['@big'] if op == 'call' or nxt == 'nextb' else []))
         items.append({'a': a, 'kw': [list(p) for p in kw]})
+    pipe = rng.choice(['own', 'own', 'given'])
+    if needs_count(hist):
+        pipe = 'own'        # thread / remote: the own results pipe is a queue, whose length can be observed
     return {'id': jid, 'kind': kind, 'hist': hist, 'dtype': dtype, 'dargs': dargs,
             'dkw': [list(p) for p in rng.choice(DKWS)], 'mut': (not c17) and rng.random() < 0.3,
-            'pipe': rng.choice(['own', 'own', 'given']), 'items': items, 'mode': mode}
+            'pipe': pipe, 'items': items, 'mode': mode}
+
+
+def needs_count(hist):
+    """A kill / terminate issued while two or more results are unread: the settled behaviour assumes that all of
+    them have been produced, which the driver can only establish on an endpoint whose length is observable."""
+    return any(s[0] in ('term', 'kill') and len(s) > 4 and s[4] >= 2 for s in hist)
 
 
 def signature(prop, rec, clauses):
@@ -707,18 +778,20 @@ def run(prop, tier, replay=None):
         ev.cov['eager_call_sequences'] = {'total': len(allowed), 'can_hang_excluded': len(allowed) - len(eager)}
         for ops_ in rng.sample(eager, min(len(eager), 400 if quick else 1500)):
             add(rng.choice(['thread', 'thread', 'process', 'remote']) if not quick or rng.random() < 0.25 else 'thread',
-                [[o, '?', 'F', 'idle'] for o in ops_], mode='eager')
+                [[o, '?', 'F', 'idle', 0] for o in ops_], mode='eager')
     else:
         n_exh = 0
         for kset, kinds in (('K_thread', ['thread']), ('K_proc', ['process']), ('K_remote', ['remote'])):
             paths = [h for _, h in dump_paths(ev, 'Persistent_c17paths.cfg', 'C17 settled ' + kinds[0], Kinds=kset,
-                                              MaxSteps=5 if quick else 6)]
+                                              MaxSteps=5 if quick else 6, MaxRestarts=2 if quick else 3)]
             paths = [h for h in paths if any(s[0].startswith('restart') for s in h)]
             n_exh += len(paths)
             if kinds[0] == 'thread':
-                sel = paths if len(paths) <= (1500 if quick else 20000) else rng.sample(paths, 1500 if quick else 20000)
+                sel = paths if len(paths) <= (1000 if quick else 20000) else rng.sample(paths, 1000 if quick else 20000)
             else:
-                sel = rng.sample(paths, min(len(paths), 170 if quick else 1500))
+                if kinds[0] == 'process':
+                    paths = [h for h in paths if not needs_count(h)]     # a process worker's results pipe cannot be counted
+                sel = rng.sample(paths, min(len(paths), 140 if quick else 1500))
             for h in sel:
                 add(kinds[0], h)
     nproc = 14
@@ -730,8 +803,6 @@ def run(prop, tier, replay=None):
     ev.cov['phase_s']['replays'] = T.s()
     byid = {r['id']: r for r in results}
     missing = [j['id'] for j in jobs if j['id'] not in byid]
-    if len(missing) > len(jobs) // 2:
-        raise MachineryError('%d of %d replays did not run (runner time limit)' % (len(missing), len(jobs)))
 
     records, meta, drift, nconf, mism = [], {}, [], 0, 0
     violations = []
@@ -756,6 +827,8 @@ def run(prop, tier, replay=None):
         violations.append(Violation(prop, sig, '%s fails on %s worker, defaults %s%s kwargs %s, history %s: outcomes %s%s'
                                     % (','.join(sorted(clauses)), j['kind'], j['dtype'], j['dargs'], j['dkw'], ops_, r['outs'],
                                        (' notes %s' % r['notes'][:2]) if r['notes'] else ''), j))
+    if not violations and len(missing) > len(jobs) // 2:
+        raise MachineryError('%d of %d replays did not run (runner time limit) and the ones that ran show no violation' % (len(missing), len(jobs)))
     # conformance: step outcomes vs the TLC behaviour (settled) / the allowed set (eager).
     # Runs inside the scope of the listed tuple-defaults finding follow the pre-fix algorithm, not the spec:
     # they are counted, not reported as drift (the finding itself is reported by ./check C05).
